@@ -167,6 +167,34 @@ Definition ex_f6 : raw_item :=
             mkRawVariant [sub_of ["incomparable"]] "B" RUnit [] None;
             mkRawVariant [] "C" RUnit [] None]).
 
+(* The sentence of the property about comparison within one variant, in propositional form: for comparable operands
+   of the same variant, partial_cmp is the result of the FIRST non-skipped field pair (declaration order) whose own
+   partial_cmp is not Some(Equal) - whatever it is, None included - and Some(Equal) when every pair is Some(Equal).
+   Any field `partial_cmp`, no law assumed. *)
+Theorem C04_first_non_equal_field :
+  forall (fval : Type) (fpcmp : fval -> fval -> option comparison) (it : item) (re : rust_enum) (a b : value fval) (d : data),
+    incomparable_value it a = false -> incomparable_value it b = false ->
+    v_idx a = v_idx b -> variant_of it a = Some d ->
+    (forall px py x y xs ys,
+       project d PartialOrd a = px ++ x :: xs -> project d PartialOrd b = py ++ y :: ys ->
+       Forall2 (fun u v => fpcmp u v = Some Datatypes.Eq) px py -> fpcmp x y <> Some Datatypes.Eq ->
+       spec_pcmp fpcmp it re a b = fpcmp x y) /\
+    (Forall2 (fun u v => fpcmp u v = Some Datatypes.Eq) (project d PartialOrd a) (project d PartialOrd b) ->
+       spec_pcmp fpcmp it re a b = Some Datatypes.Eq).
+Proof. exact spec_pcmp_first_non_equal. Qed.
+
+Check C04_first_non_equal_field :
+  forall (fval : Type) (fpcmp : fval -> fval -> option comparison) (it : item) (re : rust_enum) (a b : value fval) (d : data),
+    incomparable_value it a = false -> incomparable_value it b = false ->
+    v_idx a = v_idx b -> variant_of it a = Some d ->
+    (forall px py x y xs ys,
+       project d PartialOrd a = px ++ x :: xs -> project d PartialOrd b = py ++ y :: ys ->
+       Forall2 (fun u v => fpcmp u v = Some Datatypes.Eq) px py -> fpcmp x y <> Some Datatypes.Eq ->
+       spec_pcmp fpcmp it re a b = fpcmp x y) /\
+    (Forall2 (fun u v => fpcmp u v = Some Datatypes.Eq) (project d PartialOrd a) (project d PartialOrd b) ->
+       spec_pcmp fpcmp it re a b = Some Datatypes.Eq).
+Print Assumptions C04_first_non_equal_field.
+
 Theorem C04_F6_refuted :
   exists i w o, from_input cfg_default ex_f6 = Ok i /\ In w (in_dws i) /\
     valid_rust_enum ex_f6 /\ uncastable_fieldless ex_f6 = true /\
